@@ -171,6 +171,12 @@ pub fn run(ctx: Ctx) -> ! {
         runs.push(explore(&ctx, &base(3, 3), 9, true, 600_000, "3 peers, max_peers 3, gated, depth 9"));
         runs.push(explore(&ctx, &base(3, 2), 9, true, 600_000, "3 peers, max_peers 2, gated, depth 9"));
     }
+    // tighter limits: one warm slot, errors ban at once (exercises the limit and
+    // error-threshold paths with fewer steps)
+    let tight = Cfg { peers: 3, max_peers: 3, max_warm: 1, max_hot: 1, max_err: 0, leios: false };
+    runs.push(explore(&ctx, &tight, if ctx.thorough { 12 } else { 8 }, true, 3_000_000, "3 peers, max_warm 1, max_hot 1, max_error_count 0, gated"));
+    let roomy = Cfg { peers: 3, max_peers: 3, max_warm: 3, max_hot: 2, max_err: 2, leios: false };
+    runs.push(explore(&ctx, &roomy, if ctx.thorough { 11 } else { 8 }, true, 3_000_000, "3 peers, max_warm 3, max_hot 2, max_error_count 2, gated"));
     let states: usize = runs.iter().map(|r| r.stats.states).sum();
     let transitions: usize = runs.iter().map(|r| r.stats.transitions).sum();
     let mut samples: Vec<Value> = vec![];
